@@ -78,6 +78,8 @@ type Result struct {
 	Cases      []string         `json:"cases,omitempty"`  // distinct non-trivial case ids inside this run
 	Replan     *Plan            `json:"replan,omitempty"` // a smaller explicit plan that reproduces the violation
 	Slice      string           `json:"slice,omitempty"`  // "k/w/from" of the child process that executed this run
+	Outputs    []string          `json:"outputs,omitempty"` // label=hash of what the check recorded for cross-process comparison
+	Dump       map[string]string `json:"dump,omitempty"`    // the bytes behind Outputs (plan knob dump=1)
 }
 
 // Log is the event log of a run. Its hash is the run's trace hash.
@@ -173,4 +175,19 @@ func SortedKeys[V any](m map[string]V) []string {
 	}
 	sort.Strings(ks)
 	return ks
+}
+
+// Output records bytes produced by the code under test that must not depend on
+// the process that produced them (see CheckDef.CrossProcess).
+func (x *X) Output(label string, b []byte) {
+	if x.Def == nil || x.Def.CrossProcess == nil || !x.Def.CrossProcess(x.P) {
+		return
+	}
+	x.R.Outputs = append(x.R.Outputs, label+"="+H(b))
+	if x.P.Knob("dump", 0) == 1 {
+		if x.R.Dump == nil {
+			x.R.Dump = map[string]string{}
+		}
+		x.R.Dump[label] = string(b)
+	}
 }
